@@ -31,11 +31,31 @@ def versionInDomain (c : Config.Config) : Bool :=
   && !caseClash (c.watchers.map (·.name))
   && c.watchers.all (fun w =>
       flagOff w (cp! "singleton") && flagOff w (cp! "on_demand") && flagOff w (cp! "use_sockets")
-      && w.hooks.isEmpty && w.stderr.isEmpty && w.stdout.isEmpty)
+      && w.hooks.isEmpty)
 
-/-- one file: text → the comparable dicts of its watchers -/
+def kCheckDelay : Str := cp! "check_delay"
+
+/-- canonical text of the arbiter configuration of a file (`Arbiter.get_arbiter_config(get_config(f))`) inside the
+    stated domain: the `[circus]` section has a `check_delay` line (`dget(…, float)`: compared as a number) and
+    otherwise lines whose values are compared as texts (the harness keeps them fixed, without `$` or `(`) -/
+def arbOf (secs : List Config.Section) : Except String Str :=
+  match secs.find? (fun s => s.name = cp! "circus") with
+  | none => .error "out-of-domain"
+  | some s =>
+    match dget s.kvs kCheckDelay with
+    | none => .error "out-of-domain"
+    | some t =>
+      if s.kvs.any (fun kv => kv.1 ≠ kCheckDelay && kv.2.any (fun c => c == 36 || c == 40)) then .error "out-of-domain" else
+      match Config.parseFloat t with
+      | .ok m e =>
+        .ok (renderNum m e ++ ((sortBy (fun kv : Str × Str => kv.1) (s.kvs.filter (fun kv => kv.1 ≠ kCheckDelay))).map
+              (fun kv => lp kv.1 ++ lp kv.2)).flatten)
+      | .invalid => .error "err ValueError"
+      | .unsupported => .error "out-of-domain"
+
+/-- one file: text → the canonical arbiter configuration and the comparable dicts of its watchers -/
 def parseVersion (osenv : Dict Str) (sigTbl : List (Str × Option Nat)) (text : Str) :
-    Except String (List Cfg) :=
+    Except String (Str × List Cfg) :=
   if !text.all (fun c => c < 128 && c ≠ 13) then .error "out-of-domain" else
   match readIni text with
   | .missingSectionHeader => .error "err MissingSectionHeaderError"
@@ -53,10 +73,12 @@ def parseVersion (osenv : Dict Str) (sigTbl : List (Str × Option Nat)) (text : 
     | .error .outOfDomain => .error "out-of-domain"
     | .ok c =>
       if !versionInDomain c then .error "out-of-domain"
-      else .ok (c.watchers.map (cfgOf osenv))
+      else match arbOf secs with
+        | .error e => .error e
+        | .ok a => .ok (a, c.watchers.map (cfgOf osenv))
 
 def parseVersions (osenv : Dict Str) (sigTbl : List (Str × Option Nat)) :
-    List Str → Except String (List (List Cfg))
+    List Str → Except String (List (Str × List Cfg))
   | [] => .ok []
   | t :: r =>
     match parseVersion osenv sigTbl t with
@@ -92,7 +114,7 @@ def handleRun (ts : List String) : String :=
            | .error e => e
            | .ok [] => "bad-op"
            | .ok (v0 :: vs) =>
-             let states := trace (freshStart v0 first) vs
+             let states := traceA { arb := v0.1, st := freshStart v0.2 first } vs
              " ".intercalate ("ok" :: toString states.length :: (states.map encState).flatten))
         | _ => "bad-op"
 
